@@ -1377,6 +1377,8 @@ func runC04(c *core.Ctx) core.Meta {
 	checkVOP3bMembership(c, t)
 	checkDstRegisterFile(c, t)
 	checkVOP3PModifiers(c, t)
+	checkFLATOperands(c, t)
+	checkSMEMOperands(c, t)
 	checkModifierFlags(c)
 	checkOperandsFresh(c)
 	checkWidthColumn(c)
